@@ -254,6 +254,12 @@ func (x *Exec) unop(fr *Frame, st *State, in *ssa.UnOp) {
 		}
 		r = x.defineValue(st, in.Name(), r)
 		x.wellFormed(st, r)
+		if g, ok := in.X.(*ssa.Global); ok && g.Pkg != nil && g.Pkg.Pkg.Path() == "crypto/rand" && g.Name() == "Reader" {
+			// library assumption: the standard library initialises crypto/rand.Reader to the operating
+			// system's generator before any user code runs, and nothing in gossamer assigns it
+			st.assume(Not(Eq(r.L[0], IntLit(0))))
+			x.c.note("assumed: crypto/rand.Reader is non-nil (initialised by the standard library, never reassigned)")
+		}
 		if fn, ok := x.fnCells[locKey(loc)]; ok {
 			r.Fn = fn
 		}
